@@ -1113,6 +1113,10 @@ impl Sim {
                     while self.deliver_s2c(client, 0, 0) {}
                     self.client_frame(client);
                 }
+                if what & 8 != 0 && self.parents[slot].is_some() {
+                    // a relationship dissolved right before the session ends (no tick in between)
+                    self.step(&Step::DelParent { slot });
+                }
                 self.flags.insert("fault_episode");
                 if restart {
                     self.step(&Step::ServerRestart);
